@@ -161,9 +161,12 @@ package vgirpc
 //
 //@ func (*ShmSegment).ReadBatch
 //@   property C35
+//@   # (still declared maypanic for what the IPC decoder does with the region's bytes; the region
+//@   # itself is cut without a panic for every offset and length since the bounds check was repaired)
 //@   maypanic
 //@   boundary
 //@   requires s.size >= 0
+//@   at call (*sync.Mutex).Lock assert [nowrap] 0 <= length && offset <= s.size && offset + length <= s.size
 //@   at call schemaHasTopLevelDictionary assert [region] arr(region) == arr(s.data) && off(region) == off(s.data) + offset && len(region) == length && 0 <= length && offset + length <= s.size
 //@   at call readIPCStream#1 assert [fast] arg0 == region
 //@   at call append#2 assert [dict] arg1 == region
@@ -278,3 +281,14 @@ package vgirpc
 //@ func ShmAttach
 //@   property C34
 //@   ensures [segok] result1 == nil ==> segOK(result0) && result0.size == size
+
+// ShmAttach maps no more than the shared-memory object holds: the advertised size is compared
+// with the object's own size (fstat) before the mapping is made, so every byte below s.size is
+// backed by the object (a pointer that passes ReadBatch's bounds check cannot fault).
+//
+//@ immutable ShmSegment.size
+//@ func ShmAttach
+//@   property C35
+//@   pathflag statted
+//@   at call unix.Fstat mark statted
+//@   at call unix.Mmap assert [withinobject] statted && arg2 == size && size <= st.Size
